@@ -16,6 +16,16 @@ CLAIMED = {
   "The repository's kmipserver sources are re-compiled with every channel/select/atomic/WaitGroup/context/timer operation turned into a scheduling point; scripted client connections (valid, pipelined, partial, garbage, oversized, abrupt close, half-close, panicking and slow handlers, 16-byte pipes) are explored over all schedules up to the bound; oracle: no panic, no deadlock, no leaked per-connection goroutine, exactly one in-order response per well-formed request, one invalid-message response for framed garbage.",
   "Trusted: instrumenter rewrite rules and mc shim semantics (FIFO waiter order, abstract timers, sequentially consistent memory), in-memory network model. Bounds: <=3 connections, preemption bound 1 (quick) / 2 (thorough) for one connection, 0/1 for two.",
   "DESIGN.md §2 E1, §3 C08"),
+ "C10": ("model_checking", "mcsched",
+  "stateless model checking of the real kmipclient code under a controlled scheduler: exhaustive DFS over interleavings of callers, read/write loops, echo servers, cancellers and timers within preemption / delay bounds, happens-before state cache",
+  "N callers share one real Client whose dialer yields in-memory connections to scripted servers echoing the request identifier; every call must return an error or its own identifier. All schedules within the stated bounds are executed on the real (instrumented) code.",
+  "Trusted: instrumenter + mc shim semantics, in-memory network; bounds: <=3 callers, delay bound 3 / preemption bound 1 (quick), 4 / 2 (thorough).",
+  "DESIGN.md §2 E1, §3 C10"),
+ "C11": ("fault_enumeration", "mcsched",
+  "exhaustive fault-point enumeration under the controlled scheduler: every Read/Write/dial/server-reply of an exchange is an environment choice (ok, EOF, reset, closed, short, close-after-reply, refused), all placements of <=k faults x all schedules within the scheduling bound",
+  "Runs the real client (dial, optional version discovery, three calls, Close, call after Close) with every I/O operation as a fault point; oracle: no panic, no caller blocked forever, own response or error, <=4 transmissions per call, the call after a failed call succeeds when no new fault hits it, calls after Close fail, Close idempotent, no goroutine of the client left at quiescence.",
+  "Trusted: as C10; 'promptly' = no further external event needed. Bounds: 1 fault x delay bound 2 and 2 faults x delay bound 1 (quick); 2 faults / delay 3 / preemption-bounded variants under a deadline (thorough).",
+  "DESIGN.md §2 E1, §3 C11"),
 }
 NOT_YET = "check not built yet in this session (planned, see DESIGN.md §3)"
 NA = {}
